@@ -1098,15 +1098,23 @@ fn main() {
             let out = run_blocking(*cfg, ch);
             let out = match out {
                 Err(Fail::Stuck(e)) => {
-                    // a deadline hit is re-run once in isolation before it is reported
-                    let mut ch2 = Chooser::new(ch.choices());
-                    match run_blocking(*cfg, &mut ch2) {
-                        Err(Fail::Stuck(e2)) => Err(Fail::Stuck(format!("{e} | again: {e2}"))),
-                        other => {
-                            rr.counters.add("stalls_not_reproduced", 1);
-                            other
+                    // Only a reproducible observation counts. Between a harness step and the next one the driver's own
+                    // tasks run unsynchronised (e.g. a pool refiller may pick up the keyspace request a moment after a
+                    // released handshake of a pool that has no other connection), so a misprediction is re-run: twice.
+                    let mut last = Err(Fail::Stuck(e.clone()));
+                    let mut msgs = vec![e];
+                    for _ in 0..2 {
+                        let mut ch2 = Chooser::new(ch.choices());
+                        match run_blocking(*cfg, &mut ch2) {
+                            Err(Fail::Stuck(e2)) => msgs.push(e2),
+                            other => {
+                                rr.counters.add("stalls_not_reproduced", 1);
+                                last = other;
+                                break;
+                            }
                         }
                     }
+                    if msgs.len() == 3 { Err(Fail::Stuck(msgs.join(" | again: "))) } else { last }
                 }
                 other => other,
             };
@@ -1137,8 +1145,19 @@ fn main() {
                     traces.lock().unwrap().insert(key);
                     // determinism audit: a deterministic 1-in-8 subset is executed again with the same choices
                     if vcore::fnv64(format!("{:?}", ch.choices()).as_bytes()) % 8 == 0 {
-                        let mut ch2 = Chooser::new(ch.choices());
-                        match run_blocking(*cfg, &mut ch2) {
+                        // (same rule: a replay that stalls or differs is repeated, only a persistent difference counts)
+                        let mut attempt = 0;
+                        let replayed = loop {
+                            attempt += 1;
+                            let mut ch2 = Chooser::new(ch.choices());
+                            let out2 = run_blocking(*cfg, &mut ch2);
+                            let good = matches!(&out2, Ok(st2) if st2.trace == st.trace && st2.states == st.states) || matches!(&out2, Err(Fail::Violation(..)));
+                            if good || attempt == 3 {
+                                break out2;
+                            }
+                            rr.counters.add("audit_replays_repeated", 1);
+                        };
+                        match replayed {
                             Ok(st2) if st2.trace == st.trace && st2.states == st.states => {
                                 audited.fetch_add(1, Ordering::Relaxed);
                             }
